@@ -34,4 +34,4 @@ def replay(path):
 MANIFEST = dict(engine='fsm-seq', level='model_checking',
   technique='exhaustive enumeration of Apply/Snapshot/Persist(fail)/Restore/restart schedules (length 5/6) of fixed logs on the real FSM with real stores, differential oracle against a twin that never snapshots',
   text='For each of several logs (index gaps, old/new timestamp patterns) every enabled schedule of applies, snapshots at chosen compaction times, persists (successful and failing), restores and restarts up to the length bound runs on the real FSM, LevelDB stores, output stream and FileSnapshotStore; after every operation the state, the log copy, the output store and the index accessors are compared with a never-snapshotted twin and with the compaction horizon.',
-  note='raft calling order modelled (validated against real raft by the API-tier checks that snapshot and restart a real node); kills only between operations (Restore wipes the log copy, so partial compaction is repaired by the next restore); hashicorp/raft and goleveldb trusted.')
+  note='raft calling order modelled (validated against real raft by the API-tier checks that snapshot and restart a real node); kills only between operations (Restore wipes the log copy, so partial compaction is repaired by the next restore); hashicorp/raft and goleveldb trusted. Length sweep: 4..260 (thorough 520) old entries in front of one recent entry, snapshot+persist, restart.')
